@@ -14,6 +14,7 @@ import time
 import vlib
 import p_val
 import p_rewrite
+import p_runtime
 from vlib import ToolError, log
 
 SIZES = "{0,1,2,54,55,56,57,63,64,65,119,120,127,128,129,200}"
@@ -112,9 +113,15 @@ def separation_part(tier, tag):
         c["_src"] = c.get("_src") or vlib.render_program(c["env"], c["ty"])
         reqs.append(vlib.build_req(i, c["_bexpr"]) if c.get("via") == "b" else vlib.compile_req(i, [("entry.ts", c["_src"])]))
     comp = vlib.compile_all(reqs)
-    jobs = [{"id": i, "code": r["code"], "build": r.get("build"), "root": "T", "probes": common, "ops": ["validate", "hash"]}
+    jobs = [{"id": i, "code": r["code"], "build": r.get("build"), "root": "T", "probes": common, "ops": ["validate", "hash", "tree"]}
             for i, r in enumerate(comp) if r["outcome"] == "code"]
     obs = vlib.run_driver(jobs, tag + "-sep")
+    # level (A): the same parsers against the runtime model (validator trees, hash256 token streams, validate outcomes)
+    rcov, drift, rconsumed = p_runtime.stage(cases, obs, tag + "-rtm")
+    rcov.update(p_runtime.design(tag))
+    for k, dr in enumerate(drift[:20]):
+        vlib.write_replay("C13", f"{tier}-drift{k}", dict(dr, property="C13", complaint="model-drift (not a violation by itself)"))
+        log(f"MODEL-DRIFT {dr['what']} probe={dr['probe']} observed={dr['observed']} model={dr['model']} :: {dr['program'].strip().splitlines()[-2][:120] if dr['program'].strip() else ''}")
     recs = []
     for i, c in enumerate(cases):
         o = obs.get(i)
@@ -154,6 +161,7 @@ def separation_part(tier, tag):
     nvec = len({r["vec"] for r in recs})
     cov = {"separation_programs": len(recs), "separation_distinct_digests": ndig, "separation_distinct_behaviours": nvec,
            "separation_pool_size": len(common), "separation_binding_selftest": "rejected: forged collision"}
+    cov.update(rcov)
     return violations, cov, gstats["distinct"] + tr["distinct"], gstats["states"] + len(recs), len(recs)
 
 
